@@ -213,6 +213,15 @@ def run(F, rep):
     from engines import rule_accumulators
     rule_accumulators(F, rep, 'C19.A1', lambda g: g.file.endswith('/model.cpp') or (g.file.endswith('/utilities.cpp') and 'ink' in g.name), 3, 'model.cpp and the linking helpers of utilities.cpp', 'the verdict of linkUnits/fixVariableInterfaces must not be that of the last component or variable visited')
 
+    # ------------------------------------------------------------------ clauses shared with C09: hasUnlinkedUnits/linkUnits decide "linked" by the owning model of the units object
+    import core
+    import c09
+    c09.run(F, core.Borrowed(rep, only={'C09.P3', 'C09.P4'}))
+
+    # ------------------------------------------------------------------ W: walks over the component tree are complete
+    import recursion as _recw
+    _recw.rule_walkers(F, rep, 'C19.W1', ['findAllVariablesWithEquivalences'], 1, 'collecting the variables whose interfaces are fixed')
+
 
 
 def _exits_after(f, loop, call):
